@@ -1,1 +1,7 @@
 import Aldrin.Model.Bytes
+import Aldrin.Model.Value
+import Aldrin.Model.Codec
+import Aldrin.Model.WF
+import Aldrin.Props.C01
+import Aldrin.Props.C07
+import Aldrin.Props.C13
